@@ -67,10 +67,10 @@ def run_cancel(rep, count, mode_args, with_invalid):
         if rcg != 0:
             rcg, outg = verif.sh(gcmd, timeout=1200)
         cand = [l for l in outg.splitlines() if l.strip() and ";" not in l and not re.search(r"(?i)\binsert\b.*\b(format|values)\b", l)]
-        # ... and every statement of the corpus (quick: every second one, rotating with the seed): each statement KIND of the
+        # ... and every statement of the corpus : each statement KIND of the
         # corpus is followed by another statement at least once, whatever the random scripts above happened to pick
         corp = [l.rstrip("\n") for l in open(CORPUS, encoding="utf-8", errors="surrogateescape")]
-        step = 2 if count <= 5000 else 1
+        step = 1
         cand += [l for l in corp[rep.seed % step::step] if l.strip() and ";" not in l and "--" not in l and "#" not in l and "/*" not in l
                  and not re.search(r"(?i)\binsert\b.*\b(format|values)\b", l)]
         gfile = os.path.join(verif.BUILD, "script_grammar_%s.txt" % rep.pid)
